@@ -448,3 +448,280 @@ theorem fixed_refuses_witnesses :
     decodeTx witNonMinimal = none ∧ decodeTx witSuperfluous = none ∧ decodeTx witHugeCount = none ∧
     (decodeTx witCanonical).isSome = true := by
   decide +kernel
+
+/-! ### encode → decode -/
+
+theorem leVal_leBytes_of_lt (k n : Nat) (h : n < 256 ^ k) : leVal (leBytes k n) = n := by
+  rw [leVal_leBytes]; exact Nat.mod_eq_of_lt h
+
+theorem decodeTxIn_encode (i : TxIn) (hw : i.WF) (r : Bytes) :
+    decodeTxIn (encodeTxIn i ++ r) = some (i, r) := by
+  obtain ⟨h32, hidx, hseq, hlen⟩ := hw
+  have e : encodeTxIn i ++ r =
+      i.prevHash ++ (leBytes 4 i.prevIdx ++ (putULe i.scriptSig.length ++ (i.scriptSig ++ (leBytes 4 i.sequence ++ r)))) := by
+    simp [encodeTxIn, List.append_assoc]
+  rw [e]
+  unfold decodeTxIn decodeTxInWith
+  rw [readN_append' _ _ h32]
+  simp only
+  rw [readN_append' _ _ (leBytes_length 4 _)]
+  simp only
+  rw [vlenWire_putULe _ _ hlen (by simp)]
+  simp only
+  rw [readN_append]
+  simp only
+  rw [readN_append' _ _ (leBytes_length 4 _)]
+  simp only
+  rw [leVal_leBytes_of_lt 4 _ (by simpa using hidx), leVal_leBytes_of_lt 4 _ (by simpa using hseq)]
+
+theorem decodeTxOut_encode (o : TxOut) (hw : o.WF) (r : Bytes) :
+    decodeTxOut (encodeTxOut o ++ r) = some (o, r) := by
+  obtain ⟨hv, hlen⟩ := hw
+  have e : encodeTxOut o ++ r = leBytes 8 o.value ++ (putULe o.pkScript.length ++ (o.pkScript ++ r)) := by
+    simp [encodeTxOut, List.append_assoc]
+  rw [e]
+  unfold decodeTxOut decodeTxOutWith
+  rw [readN_append' _ _ (leBytes_length 8 _)]
+  simp only
+  rw [vlenWire_putULe _ _ hlen (by simp)]
+  simp only
+  rw [readN_append]
+  simp only
+  rw [leVal_leBytes_of_lt 8 _ (by simpa using hv)]
+
+theorem decodeItem_encode (x : Bytes) (hl : x.length < 2^64) (r : Bytes) :
+    decodeItem (encodeItem x ++ r) = some (x, r) := by
+  have e : encodeItem x ++ r = putULe x.length ++ (x ++ r) := by simp [encodeItem, List.append_assoc]
+  rw [e]
+  unfold decodeItem decodeItemWith
+  rw [vlenWire_putULe _ _ hl (by simp)]
+  simp only
+  rw [readN_append]
+
+theorem encodeItem_pos (x : Bytes) : 1 ≤ (encodeItem x).length := by
+  have := putULe_ne_nil x.length
+  simp only [encodeItem, List.length_append]; omega
+
+theorem decodeStack_encode (s : List Bytes) (hl : s.length < 2^64) (hx : ∀ x ∈ s, x.length < 2^64) (r : Bytes) :
+    decodeStack (encodeStack s ++ r) = some (s, r) := by
+  have e : encodeStack s ++ r = putULe s.length ++ (encodeList encodeItem s ++ r) := by
+    simp [encodeStack, List.append_assoc]
+  rw [e]
+  unfold decodeStack decodeStackWith
+  have hb : s.length ≤ (encodeList encodeItem s ++ r).length := by
+    have := encodeList_length_ge encodeItem encodeItem_pos s
+    simp only [List.length_append]; omega
+  rw [vlenWire_putULe _ _ hl hb]
+  simp only
+  exact decodeN_encode (decodeItemWith vlenWire) encodeItem s r (fun x hxs r' => decodeItem_encode x (hx x hxs) r')
+
+theorem encodeTxIn_pos (i : TxIn) : 1 ≤ (encodeTxIn i).length := by
+  simp only [encodeTxIn, List.length_append, leBytes_length]; omega
+theorem encodeTxOut_pos (o : TxOut) : 1 ≤ (encodeTxOut o).length := by
+  simp only [encodeTxOut, List.length_append, leBytes_length]; omega
+theorem encodeStack_pos (s : List Bytes) : 1 ≤ (encodeStack s).length := by
+  have := putULe_ne_nil s.length
+  simp only [encodeStack, List.length_append]; omega
+
+theorem readMarker_nonzero (x : UInt8) (t : Bytes) (hx : x ≠ 0) : readMarker (x :: t) = some (false, x :: t) := by
+  simp [readMarker, hx]
+
+/-- `btc.NewTx (tx.SerializeNew() ++ rest)` gives `tx` back, for every well-formed `tx`. -/
+theorem decodeTxFull_encode (t : Tx) (hw : t.WF) (rest : Bytes) :
+    decodeTxFull (encodeTx t ++ rest) =
+      some { tx := t, consumed := (encodeTx t).length, noWitSize := (encodeTxNoWit t).length % 2^32 } := by
+  have hins : ∀ r, decodeN (decodeTxInWith vlenWire) t.ins.length (encodeList encodeTxIn t.ins ++ r) = some (t.ins, r) :=
+    fun r => decodeN_encode _ encodeTxIn t.ins r (fun x hx r' => decodeTxIn_encode x (hw.ins x hx) r')
+  have houts : ∀ r, decodeN (decodeTxOutWith vlenWire) t.outs.length (encodeList encodeTxOut t.outs ++ r) = some (t.outs, r) :=
+    fun r => decodeN_encode _ encodeTxOut t.outs r (fun x hx r' => decodeTxOut_encode x (hw.outs x hx) r')
+  have hbi : ∀ r : Bytes, t.ins.length ≤ (encodeList encodeTxIn t.ins ++ r).length := by
+    intro r
+    have := encodeList_length_ge encodeTxIn encodeTxIn_pos t.ins
+    simp only [List.length_append]; omega
+  have hbo : ∀ r : Bytes, t.outs.length ≤ (encodeList encodeTxOut t.outs ++ r).length := by
+    intro r
+    have := encodeList_length_ge encodeTxOut encodeTxOut_pos t.outs
+    simp only [List.length_append]; omega
+  have hne : t.ins.length ≠ 0 := by
+    intro h; exact hw.ins_ne (List.length_eq_zero_iff.mp h)
+  obtain ⟨x, tl, hput, hx0⟩ := putULe_head_ne_zero t.ins.length hne hw.nins
+  cases hwit : t.witness with
+  | none =>
+    have e : encodeTx t ++ rest = leBytes 4 t.version ++ (putULe t.ins.length ++ (encodeList encodeTxIn t.ins ++
+        (putULe t.outs.length ++ (encodeList encodeTxOut t.outs ++ (leBytes 4 t.lockTime ++ rest))))) := by
+      simp [encodeTx, hwit, encodeTxNoWit, encodeBody, List.append_assoc]
+    have elen : (encodeTx t).length = 4 + ((putULe t.ins.length).length + ((encodeList encodeTxIn t.ins).length +
+        ((putULe t.outs.length).length + ((encodeList encodeTxOut t.outs).length + 4)))) := by
+      simp [encodeTx, hwit, encodeTxNoWit, encodeBody]
+    have enw : encodeTxNoWit t = encodeTx t := by simp [encodeTx, hwit]
+    rw [enw, elen, e]
+    unfold decodeTxFull decodeTxWith
+    rw [readN_append' _ _ (leBytes_length 4 _)]
+    simp only
+    rw [hput, List.cons_append, readMarker_nonzero x _ hx0, ← List.cons_append, ← hput]
+    simp only
+    rw [vlenWire_putULe _ _ hw.nins (hbi _)]
+    simp only
+    rw [hins]
+    simp only
+    rw [vlenWire_putULe _ _ hw.nouts (hbo _)]
+    simp only
+    rw [houts]
+    simp only [Bool.false_eq_true, ↓reduceIte]
+    rw [readN_append' _ _ (leBytes_length 4 _)]
+    simp only [Option.some.injEq]
+    have hv : leVal (leBytes 4 t.version) = t.version := leVal_leBytes_of_lt 4 _ (by simpa using hw.version)
+    have hl : leVal (leBytes 4 t.lockTime) = t.lockTime := leVal_leBytes_of_lt 4 _ (by simpa using hw.lockTime)
+    rw [hv, hl]
+    have ht : ({ version := t.version, ins := t.ins, outs := t.outs, witness := none, lockTime := t.lockTime } : Tx) = t := by
+      cases t; simp_all
+    rw [ht]
+    congr 1
+    · simp only [List.length_append, leBytes_length]; omega
+    · simp only [List.length_append, leBytes_length]; congr 1; omega
+  | some w =>
+    obtain ⟨hwl, hnw, hws⟩ := hw.wit w hwit
+    have hwd : ∀ r, decodeN (decodeStackWith vlenWire) t.ins.length (encodeList encodeStack w ++ r) = some (w, r) := by
+      intro r
+      rw [← hwl]
+      exact decodeN_encode _ encodeStack w r (fun s hs r' => decodeStack_encode s (hws s hs).1 (hws s hs).2 r')
+    have e : encodeTx t ++ rest = leBytes 4 t.version ++ (0 :: 1 :: (putULe t.ins.length ++ (encodeList encodeTxIn t.ins ++
+        (putULe t.outs.length ++ (encodeList encodeTxOut t.outs ++ (encodeList encodeStack w ++ (leBytes 4 t.lockTime ++ rest))))))) := by
+      simp [encodeTx, hwit, encodeBody, encodeWitness, List.append_assoc]
+    have elen : (encodeTx t).length = 4 + (2 + ((putULe t.ins.length).length + ((encodeList encodeTxIn t.ins).length +
+        ((putULe t.outs.length).length + ((encodeList encodeTxOut t.outs).length + ((encodeList encodeStack w).length + 4)))))) := by
+      simp [encodeTx, hwit, encodeBody, encodeWitness]; omega
+    have enwlen : (encodeTxNoWit t).length = 4 + ((putULe t.ins.length).length + ((encodeList encodeTxIn t.ins).length +
+        ((putULe t.outs.length).length + ((encodeList encodeTxOut t.outs).length + 4)))) := by
+      simp [encodeTxNoWit, encodeBody]
+    rw [enwlen, elen, e]
+    unfold decodeTxFull decodeTxWith
+    rw [readN_append' _ _ (leBytes_length 4 _)]
+    simp only
+    have hm : ∀ r : Bytes, readMarker (0 :: 1 :: r) = some (true, r) := by intro r; simp [readMarker]
+    rw [hm]
+    simp only
+    rw [vlenWire_putULe _ _ hw.nins (hbi _)]
+    simp only
+    rw [hins]
+    simp only
+    rw [vlenWire_putULe _ _ hw.nouts (hbo _)]
+    simp only
+    rw [houts]
+    simp only [↓reduceIte]
+    rw [hwd]
+    simp only [hnw, Bool.and_false, Bool.false_eq_true, ↓reduceIte]
+    rw [readN_append' _ _ (leBytes_length 4 _)]
+    simp only [Option.some.injEq]
+    have hv : leVal (leBytes 4 t.version) = t.version := leVal_leBytes_of_lt 4 _ (by simpa using hw.version)
+    have hl : leVal (leBytes 4 t.lockTime) = t.lockTime := leVal_leBytes_of_lt 4 _ (by simpa using hw.lockTime)
+    rw [hv, hl]
+    have ht : ({ version := t.version, ins := t.ins, outs := t.outs, witness := some w, lockTime := t.lockTime } : Tx) = t := by
+      cases t; simp_all
+    rw [ht]
+    congr 1
+    · simp only [List.length_append, List.length_cons, leBytes_length]; omega
+    · simp only [List.length_append, List.length_cons, leBytes_length]; congr 1; omega
+
+/-! ### blocks -/
+
+/-- what is known about one transaction parsed out of a block -/
+def Good (p : Decoded × Bytes) : Prop :=
+  p.2 = encodeTx p.1.tx ∧ p.1.noWitSize = (encodeTxNoWit p.1.tx).length ∧
+  (encodeTxNoWit p.1.tx).length ≤ p.2.length
+
+theorem encodeTxNoWit_le (t : Tx) : (encodeTxNoWit t).length ≤ (encodeTx t).length := by
+  unfold encodeTx
+  split
+  · exact Nat.le_refl _
+  · simp only [encodeTxNoWit, List.length_append, leBytes_length, List.length_cons, List.length_nil]; omega
+
+theorem decodeTxs_spec : ∀ (n : Nat) (b : Bytes), b.length < 2^32 → ∀ l ok, decodeTxs n b = (l, ok) →
+    (∀ p ∈ l, Good p) ∧ (l.map (·.2.length)).sum ≤ b.length ∧ (ok = true → l.length = n) := by
+  intro n
+  induction n with
+  | zero =>
+    intro b _ l ok h
+    simp only [decodeTxs, Prod.mk.injEq] at h
+    obtain ⟨rfl, rfl⟩ := h
+    simp
+  | succ n ih =>
+    intro b hb l ok h
+    simp only [decodeTxs] at h
+    split at h
+    · simp only [Prod.mk.injEq] at h
+      obtain ⟨rfl, rfl⟩ := h
+      simp
+    · rename_i d hd
+      split at h
+      · simp only [Prod.mk.injEq] at h
+        obtain ⟨rfl, rfl⟩ := h
+        simp
+      · obtain ⟨rest, hbe, hc, hn, _⟩ := decodeTxFull_spec hd
+        have hlen := congrArg List.length hbe
+        simp only [List.length_append] at hlen
+        cases hrec : decodeTxs n (b.drop d.consumed) with
+        | mk l' ok' =>
+          rw [hrec] at h
+          simp only [Prod.mk.injEq] at h
+          obtain ⟨rfl, rfl⟩ := h
+          have hdl : (b.drop d.consumed).length = b.length - d.consumed := by simp
+          obtain ⟨g, s, k⟩ := ih (b.drop d.consumed) (by rw [hdl]; omega) l' ok' hrec
+          have htake : b.take d.consumed = encodeTx d.tx := by
+            rw [hc]; conv => lhs; rw [hbe]
+            simp
+          refine ⟨?_, ?_, ?_⟩
+          · intro p hp
+            simp only [List.mem_cons] at hp
+            rcases hp with rfl | hp
+            · refine ⟨htake, ?_, ?_⟩
+              · simp only; rw [hn]; apply Nat.mod_eq_of_lt
+                have := encodeTxNoWit_le d.tx; omega
+              · simp only; rw [htake]; exact encodeTxNoWit_le d.tx
+            · exact g p hp
+          · simp only [List.map_cons, List.sum_cons, htake]
+            rw [hdl] at s; omega
+          · intro hok; simp only [List.length_cons]; rw [k hok]
+
+theorem mkBlockTxs_map (H : Bytes → Bytes) : ∀ (l : List (Decoded × Bytes)) (f : Bool),
+    (mkBlockTxs H f l).map (fun t => (t.ids.noWitSize, t.ids.size, t.tx)) =
+    l.map (fun p => (p.1.noWitSize, p.2.length % 2^32, p.1.tx)) := by
+  intro l
+  induction l with
+  | nil => intro f; simp [mkBlockTxs]
+  | cons p l ih =>
+    intro f
+    obtain ⟨d, raw⟩ := p
+    simp only [mkBlockTxs, List.map_cons, ih false, List.cons.injEq, and_true]
+    unfold blockTxIds
+    split <;> simp
+
+theorem weight_sum (L : Nat) (hL : L < 2^30) : ∀ (l : List (Decoded × Bytes)), (∀ p ∈ l, Good p) →
+    (l.map (·.2.length)).sum ≤ L →
+    (l.map (fun p => (3 * p.1.noWitSize + p.2.length % 2^32) % 2^32)).sum =
+      3 * (l.map (fun p => (encodeTxNoWit p.1.tx).length)).sum + (l.map (fun p => (encodeTx p.1.tx).length)).sum := by
+  intro l
+  induction l with
+  | nil => intro _ _; simp
+  | cons p l ih =>
+    intro g s
+    simp only [List.map_cons, List.sum_cons] at s ⊢
+    have ⟨g1, g2, g3⟩ := g p (by simp)
+    rw [ih (fun q hq => g q (by simp [hq])) (by omega)]
+    rw [← g1, g2]
+    have h1 : p.2.length % 2^32 = p.2.length := Nat.mod_eq_of_lt (by omega)
+    rw [h1]
+    have h2 : (3 * (encodeTxNoWit p.1.tx).length + p.2.length) % 2^32 = 3 * (encodeTxNoWit p.1.tx).length + p.2.length :=
+      Nat.mod_eq_of_lt (by omega)
+    rw [h2]; omega
+
+theorem sum_le_of_weight (l : List (Decoded × Bytes)) (g : ∀ p ∈ l, Good p) :
+    (l.map (fun p => (encodeTxNoWit p.1.tx).length)).sum ≤ (l.map (·.2.length)).sum ∧
+    (l.map (fun p => (encodeTx p.1.tx).length)).sum = (l.map (·.2.length)).sum := by
+  induction l with
+  | nil => simp
+  | cons p l ih =>
+    have ⟨g1, _, g3⟩ := g p (by simp)
+    have ⟨i1, i2⟩ := ih (fun q hq => g q (by simp [hq]))
+    simp only [List.map_cons, List.sum_cons]
+    rw [i2, ← g1]; omega
